@@ -155,3 +155,38 @@ Theorem C03_quintic_exact_after_any_history (pre : list (call (T := R))) (c0 c1 
 Proof. exact (quintic_exact_after_any_history pre c0 c1 c2 c3 c4 c5 a b eps depth). Qed.
 Print Assumptions C03_quintic_exact_after_any_history.
 
+
+(** "arbitrary integrands" includes integrands that use the integrator themselves (re-entrant use, as in
+    Integrate_2D(...,"Adaptive-Simpson")): [reentrant ROps mk E] is the integrand that at abscissa x makes the call
+    [mk x] (Integrate with explicit or default depth, the string overload or Find_Epsilon; integrand, limits, epsilon
+    and depth of that call may all depend on x) and returns E x (value of that call).  For the outer call the count
+    and location bounds, the negation under swapped limits and the irrelevance of the sign of epsilon hold as for any
+    integrand, *)
+Theorem C03_reentrant_outer (mk : R -> call (T := R)) (E : R -> R -> R) (a b eps : R) (depth : Z) :
+  (length (trc (integrate ROps (reentrant ROps mk E) a b eps depth)) <= 2 ^ (Z.to_nat depth + 2) + 1)%nat /\
+  List.Forall (fun x => Rmin a b <= x <= Rmax a b) (trc (integrate ROps (reentrant ROps mk E) a b eps depth)) /\
+  val (integrate ROps (reentrant ROps mk E) b a eps depth) = - val (integrate ROps (reentrant ROps mk E) a b eps depth) /\
+  integrate ROps (reentrant ROps mk E) a b (- eps) depth = integrate ROps (reentrant ROps mk E) a b eps depth.
+Proof. exact (reentrant_outer mk E a b eps depth). Qed.
+Print Assumptions C03_reentrant_outer.
+
+(** ... and every inner call, being the call made alone, obeys its own bounds: at most 2^(depth+2)+1 evaluations
+    (2^22+1 with the default depth, 2^22+4 for the string overload, 3 for Find_Epsilon), all inside its own limits. *)
+Theorem C03_reentrant_inner (mk : R -> call (T := R)) (E : R -> R -> R) (x : R) :
+  reentrant ROps mk E x = E x (val (run_call ROps (mk x))) /\
+  (length (trc (run_call ROps (mk x))) <= call_bound (mk x))%nat /\
+  List.Forall (fun t => Rmin (fst (call_limits (mk x))) (snd (call_limits (mk x))) <= t
+                        <= Rmax (fst (call_limits (mk x))) (snd (call_limits (mk x))))
+    (trc (run_call ROps (mk x))).
+Proof. exact (conj (reentrant_value mk E x) (conj (run_call_count (mk x)) (run_call_inside (mk x)))). Qed.
+Print Assumptions C03_reentrant_inner.
+
+(** A nested integral whose inner integrand is a polynomial of degree <= 5 in the inner variable (coefficients, inner
+    limits, inner epsilon and depth arbitrary functions of the outer abscissa): the inner call returns the exact
+    inner integral at every outer abscissa. *)
+Theorem C03_reentrant_inner_quintic_exact (c0 c1 c2 c3 c4 c5 lo hi ieps : R -> R) (idepth : R -> Z) (E : R -> R -> R) (x : R) :
+  reentrant ROps (fun x => CInt (fun t => c0 x + c1 x * t + c2 x * t ^ 2 + c3 x * t ^ 3 + c4 x * t ^ 4 + c5 x * t ^ 5)
+                             (lo x) (hi x) (ieps x) (idepth x)) E x
+  = E x (RInt (fun t => c0 x + c1 x * t + c2 x * t ^ 2 + c3 x * t ^ 3 + c4 x * t ^ 4 + c5 x * t ^ 5) (lo x) (hi x)).
+Proof. exact (reentrant_inner_quintic_exact c0 c1 c2 c3 c4 c5 lo hi ieps idepth E x). Qed.
+Print Assumptions C03_reentrant_inner_quintic_exact.
